@@ -154,6 +154,16 @@ func mergeToWriter(segments []*SegmentBase, drops []*roaring.Bitmap,
 		}
 	}
 
+	if numDocs == 0 {
+		// no document survives, so no section data was written for any field:
+		// emit the field table of an empty segment (just _id, as a build of an
+		// empty batch does). Writing the other fields here would leave _id at
+		// offset 0, which the loader reads as "field absent" and which shifts
+		// the ids of all remaining fields.
+		fieldsInv = fieldsInv[:1]
+		fieldsMap = mapFields(fieldsInv)
+	}
+
 	// we can persist the fields section index now, this will point
 	// to the various indexes (each in different section) available for a field.
 	sectionsIndexOffset, err = persistFieldsSection(fieldsInv, cr, mergeOpaque)
